@@ -41,6 +41,11 @@ def targets():
         mk('S_wxyz', Q, lambda A, v: (lambda q: [q.w, q.x, q.y, q.z, q.v])(A.Quaternion(_S(v), versor=False, order='S')),
            'accessors of a scalar-last quaternion'),
         mk('H_wxyz', Q, lambda A, v: (lambda q: [q.w, q.x, q.y, q.z, q.v])(A.Quaternion(v.vec(*Q), versor=False))),
+        mk('product_QS', P + Q, lambda A, v: A.Quaternion(v.vec(*P), versor=False).product(A.Quaternion(_S(v), versor=False, order='S')),
+           'right operand is a scalar-last Quaternion object'),
+        mk('mul_QS', P + Q, lambda A, v: A.Quaternion(v.vec(*P), versor=False) * A.Quaternion(_S(v), versor=False, order='S')),
+        mk('matmul_QH', P + Q, lambda A, v: A.Quaternion(v.vec(*P), versor=False) @ A.Quaternion(v.vec(*Q), versor=False),
+           'right operand is a scalar-first Quaternion object'),
         mk('S_product', P + Q, lambda A, v: A.Quaternion(v.vec('b', 'c', 'd', 'a'), versor=False, order='S').product(v.vec(*Q)),
            'product of a scalar-last stored p with a scalar-first array q'),
     ]
@@ -71,6 +76,9 @@ def _impl():
         'S_wxyz': lambda q: (lambda o: [o.w, o.x, o.y, o.z, o.v])(ahrs.Quaternion(S(q), versor=False, order='S')),
         'H_wxyz': lambda q: (lambda o: [o.w, o.x, o.y, o.z, o.v])(Qn(q)),
         'S_product': lambda p, q: ahrs.Quaternion(S(p), versor=False, order='S').product(np.array(q)),
+        'product_QS': lambda p, q: Qn(p).product(ahrs.Quaternion(S(q), versor=False, order='S')),
+        'mul_QS': lambda p, q: np.asarray(Qn(p) * ahrs.Quaternion(S(q), versor=False, order='S')),
+        'matmul_QH': lambda p, q: np.asarray(Qn(p) @ Qn(q)),
     }
 
 
@@ -89,7 +97,7 @@ def correspondence(ctx):
     qs = _quats(ctx, n)
     one = [cm.d(Q, q) for q in qs]
     two = [{**cm.d(P, qs[i]), **cm.d(Q, qs[(3 * i + 1) % len(qs)])} for i in range(len(qs))]
-    for name in ('product', 'mul', 'matmul', 'q_prod', 'S_product'):
+    for name in ('product', 'mul', 'matmul', 'q_prod', 'S_product', 'product_QS', 'mul_QS', 'matmul_QH'):
         ctx.correspond(f'C09_{name}', two, (lambda c, f=I[name]: f([c[k] for k in P], [c[k] for k in Q])))
     for name in ('conj', 'conj_S', 'q_conj', 'inverse', 'inverse_versor', 'mult_L', 'mult_R', 'q_mult_L', 'q_mult_R', 'S_wxyz', 'H_wxyz'):
         ctx.correspond(f'C09_{name}', one, (lambda c, f=I[name]: f([c[k] for k in Q])))
@@ -180,7 +188,39 @@ def cm_flat(x):
     return np.array(flat_floats(x))
 
 
-ORACLES = {'algebra': o_algebra, 'inverse': o_inverse, 'scalar_last': o_scalar_last}
+def o_operands(inp):
+    """the product does not depend on how the operands are given: Quaternion objects of either storage order,
+    float arrays, lists, integer arrays (exactly representable components)"""
+    import ahrs
+    from ahrs.common import orientation as O
+    p, q = np.array(inp['p'], float), np.array(inp['q'], float)
+    ref = cm.qmul(p, q)
+    sc = max(1.0, np.linalg.norm(p)) * max(1.0, np.linalg.norm(q))
+    S = lambda x: np.array([x[1], x[2], x[3], x[0]], dtype=float)
+    lefts = {'H': ahrs.Quaternion(p, versor=False), 'S': ahrs.Quaternion(S(p), versor=False, order='S')}
+    rights = {'array': q.copy(), 'list': q.tolist(), 'QH': ahrs.Quaternion(q, versor=False), 'QS': ahrs.Quaternion(S(q), versor=False, order='S')}
+    if inp.get('int'):
+        rights['int'] = np.array(q, dtype=int)
+        rights['intlist'] = [int(v) for v in q]
+    for ln, L in lefts.items():
+        for rn, Rr in rights.items():
+            for on, op in (('product', lambda a, b: a.product(b)), ('mul', lambda a, b: a * b), ('matmul', lambda a, b: a @ b)):
+                try:
+                    r = np.asarray(op(L, Rr), float)
+                except TypeError:
+                    continue
+                if r.shape != (4,) or cm.bad(r) or _rel(r, ref, sc) > TOL:
+                    return {'tag': f'{on}/left-{ln}/right-{rn}', 'observed': r, 'expected': ref}
+    for rn, (a, b) in {'arrays': (p.copy(), q.copy()), 'int-left': (np.array(p, dtype=int) if inp.get('int') else p.copy(), q.copy())}.items():
+        if rn == 'int-left' and not np.allclose(p, np.round(p)):
+            continue
+        r = np.asarray(O.q_prod(a, b), float)
+        if _rel(r, cm.qmul(np.array(a, float), q), sc) > TOL:
+            return {'tag': f'q_prod/{rn}', 'observed': r, 'expected': cm.qmul(np.array(a, float), q)}
+    return None
+
+
+ORACLES = {'algebra': o_algebra, 'inverse': o_inverse, 'scalar_last': o_scalar_last, 'operands': o_operands}
 
 
 def search(ctx, scale):
@@ -196,4 +236,13 @@ def search(ctx, scale):
             ctx.check('inverse', inp, cm_call(o_inverse, inp), nontrivial_key=(versor, tuple(np.round(q, 6))))
         inp = {'q': q.tolist(), 'p': p.tolist()}
         ctx.check('scalar_last', inp, cm_call(o_scalar_last, inp), nontrivial_key=(tuple(np.round(q, 6)),))
+    ints = [[1, 0, 0, 0], [0, 1, 0, 0], [0, 0, -1, 0], [0, 0, 0, 1], [1, 2, 3, 4], [-2, 0, 5, 1]]
+    for i in range(8 * scale):
+        p, q = qs[(3 * i) % len(qs)], qs[(5 * i + 1) % len(qs)]
+        inp = {'p': p.tolist(), 'q': q.tolist()}
+        ctx.check('operands', inp, cm_call(o_operands, inp), nontrivial_key=('f', i))
+        inp = {'p': [float(v) for v in ints[i % len(ints)]], 'q': [float(v) for v in ints[(i + 2) % len(ints)]], 'int': True}
+        ctx.check('operands', inp, cm_call(o_operands, inp), nontrivial_key=('i', i % len(ints), (i + 2) % len(ints)))
+        inp = {'p': p.tolist(), 'q': [float(v) for v in ints[i % len(ints)]], 'int': True}
+        ctx.check('operands', inp, cm_call(o_operands, inp), nontrivial_key=('fi', i))
     ctx.samples.append({'kind': 'search', 'oracle': 'algebra', 'input': {'p': qs[3].tolist(), 'q': qs[4].tolist(), 'r': qs[5].tolist()}})
